@@ -32,9 +32,24 @@ def define(f, params, body):
     return f
 
 
+_ABS_CACHE: Dict[Any, Any] = {}
+
+
 def abstract(t):
     if not REC:
         return t
+    key = (t.get_id(), len(REC))
+    hit = _ABS_CACHE.get(key)
+    if hit is not None and hit[0].eq(t):
+        return hit[1]
+    r = _abstract(t)
+    if len(_ABS_CACHE) > 200000:
+        _ABS_CACHE.clear()
+    _ABS_CACHE[key] = (t, r)
+    return r
+
+
+def _abstract(t):
     if z3.is_quantifier(t) and t.num_patterns() > 0:
         # substitute_funs does not rewrite trigger annotations: rebuild the quantifier with abstracted triggers
         cs = [z3.Const(f'{t.var_name(i)}', t.var_sort(i)) for i in range(t.num_vars())]
